@@ -1,4 +1,4 @@
-import GrVerif.Proofs.Forest8
+import GrVerif.Proofs.Forest9
 /-!
 # C04 — glyph attachments form a forest over the segment's own slots   (partial: left-to-right pipeline, base chain not modelled)
 
@@ -31,8 +31,15 @@ never collected slot) – both repaired in `/repo` (see `known_findings.json`), 
   deleted parents), and `Alloc` (every slot in use that is neither deleted nor a temporary copy is in the stream – part of
   the stream invariant of C03).
 
-NOT proved: the base chain built by `linkClusters` (not modelled) – decided by the correspondence of this model with the
-real engine and by the forest predicate evaluated on the implementation's dumps (`tools/props/c04.py`).
+* **the base chain** (`bases_form_one_chain`, `Proofs/Forest9.lean`): `Segment::linkClusters`, the last step of
+  `Segment::finalise`, chains the bases of the stream – in stream order, each exactly once – through `sibling` and changes
+  no other pointer (attached slots keep their `sibling`, all slots their `parent` and `child`).
+
+Scope: the left-to-right pipeline of `Model/Pass.lean` (no bidi pass, no `reverseSlots`, no justification).  One clause is
+deliberately *not* claimed for arbitrary action programs: that every member of a child chain is a slot of the stream.  A
+program `delete; attr_set attach.to` on the first slot of the stream would attach the deleted slot to a live one; the
+model allows it (it does not model the loader), the real loader refuses such code (checked on the real loader), so this
+clause is decided by the forest predicate on the implementation's dumps (`tools/props/c04.py`).
 -/
 set_option linter.unusedVariables false
 namespace GrVerif.Props.C04
@@ -112,6 +119,22 @@ theorem attachments_stay_in_segment (font : Pass.Font) (text : List Nat) (fuel :
     (e : Pass.shape font text fuel = .ok (some (c, ci))) :
     ∃ l, Linked c.seg l ∧ Clean c.seg l ∧ ∀ j ∈ l, ∀ p, (c.seg.get j).parent = some p → p ∈ l :=
   Pass.shape_parents_in_stream font text fuel e
+
+/-- **C04: the base chain.** For every font and text, in the segment the modelled pipeline returns and
+`Segment::finalise` completes with `linkClusters`: the bases (the slots of the stream without a parent), in stream order,
+form one `sibling` chain that contains each of them exactly once; attached slots keep their `sibling`, all slots their
+`parent` and first `child` – so the child chains of `forest_for_clients` are untouched. -/
+theorem bases_form_one_chain (font : Pass.Font) (text : List Nat) (fuel : Nat) {c : Ctx} {ci : List Assoc.CI}
+    (e : Pass.shape font text fuel = .ok (some (c, ci))) :
+    ∃ l, Linked c.seg l ∧
+      SibChain (Pass.linkClusters c.seg 0) (l.filter fun i => (c.seg.get i).parent.isNone).head? (l.filter fun i => (c.seg.get i).parent.isNone) ∧
+      (l.filter fun i => (c.seg.get i).parent.isNone).Nodup ∧
+      (∀ j, ((Pass.linkClusters c.seg 0).get j).parent = (c.seg.get j).parent ∧ ((Pass.linkClusters c.seg 0).get j).child = (c.seg.get j).child) ∧
+      (∀ j, (c.seg.get j).parent ≠ none → ((Pass.linkClusters c.seg 0).get j).sibling = (c.seg.get j).sibling) := by
+  obtain ⟨l, hl, hc, _⟩ := Pass.shape_wf font text fuel e
+  have hF := Pass.shape_forest font text fuel e
+  obtain ⟨h1, h2, h3⟩ := Pass.linkClusters_spec hF hl hc
+  exact ⟨l, hl, h1, hl.nodup.filter _, fun j => ⟨(h2 j).1, (h2 j).2.1⟩, h3⟩
 
 /-- every opcode keeps "a parent is never marked deleted" together with everything else -/
 theorem every_opcode_keeps_parents_alive : OpsPreserve PG := ops_PG
